@@ -83,7 +83,7 @@ func c17Script(s string, script int) string {
 
 // word of n characters in the given script (no hyphens, no blanks)
 func c17Word(n int, script int, seed int) string {
-	letters := []string{"abcdefghij", "éàüöñçßøåæ", "中文字符测试数据甲乙", "𠮷𠀋𡈽𠮟𩸽𠂤𠁣𠃊𠄀𠅘"}[script]
+	letters := []string{"abcdefghij", "éa中öñbßø字æ", "中文字符测试数据甲乙", "𠮷𠀋𡈽𠮟𩸽𠂤𠁣𠃊𠄀𠅘"}[script]
 	r := []rune(letters)
 	var b strings.Builder
 	for i := 0; i < n; i++ {
@@ -138,6 +138,9 @@ func c17Build(key string, row c17Row, onCmd bool, wide bool, posVariant int, pat
 	u := &decl.Opt{Field: "U", Long: row.long, Short: row.short, ValueName: row.valname, Type: t}
 	if row.choices {
 		u.Choices = []string{"ab", "cd"}
+		if row.valname == "VAL" {
+			u.Choices = []string{"the-only-choice-there-is"} // a single choice is listed too, and counts for the row's width
+		}
 	}
 	if row.optional {
 		u.Optional, u.OptionalVal = "yes", []string{"dflt"}
@@ -147,11 +150,11 @@ func c17Build(key string, row c17Row, onCmd bool, wide bool, posVariant int, pat
 	w := &decl.Opt{Field: "W", Long: "wide-long-name-here1", Short: "w", Type: decl.TBool}
 	w.Desc = c17Desc("Wz", []int{9, 9}, 0, 0)
 	small := &decl.Opt{Field: "K", Long: "k", Type: decl.TBool}
-	small.Desc = c17Desc("Kz", []int{5}, 0, 0)
+	small.Desc = "@\n" + c17Desc("Kz", []int{5}, 0, 0) // a first line of a single one-byte character, then a line break
 	if wide {
 		descs["Wz"] = w.Desc
 	} else {
-		descs["Kz"] = small.Desc
+		descs["@"] = small.Desc
 	}
 	top := &decl.Cmd{Name: "app", SubOptional: true}
 	cmd := &decl.Cmd{Field: "Cmd", Name: "cmd"}
@@ -452,8 +455,8 @@ func init() {
 		ShardDepth: 4,
 		Body:       body,
 		Setup:      c17Setup,
-		Rule: "row under test: long name of 0/1/5/20 characters in {ASCII, 2-byte, 3-byte} script x short name {none, ASCII, é} x value name {none, ASCII, non-ASCII} x choices?, plus rows whose argument is optional (with and without value name), plus every named row inside a group with a long namespace, alone, nested in a hidden group, nested in a second namespaced group, and a row with eight long choices (column beyond 64), last of its block, on the parser or on an active command (indented); the parser lists two commands, one described and with a multi-byte name " +
-			"x neighbour row {widest of all, 1-character} x described positional {none, ASCII name, non-ASCII name, a long name on an active command that has no options} x description = marker word + word-length pattern (8 quick / 16 thorough patterns over lengths 1,5,9,10,11,25,40) in {ASCII, 2-byte, 3-byte, 4-byte (non-BMP)} script (quick: the last two without a described positional) x embedded line break {none, after marker, after first word} or two consecutive blanks {after marker, after first word; ASCII descriptions} " +
+		Rule: "row under test: long name of 0/1/5/20 characters in {ASCII, 2-byte, 3-byte} script x short name {none, ASCII, é} x value name {none, ASCII, non-ASCII} x choices? (two, or a single long one with the ASCII value name), plus rows whose argument is optional (with and without value name), plus every named row inside a group with a long namespace, alone, nested in a hidden group, nested in a second namespaced group, and a row with eight long choices (column beyond 64), last of its block, on the parser or on an active command (indented); the parser lists two commands, one described and with a multi-byte name " +
+			"x neighbour row {widest of all, 1-character (its description starts with a line of one character)} x described positional {none, ASCII name, non-ASCII name, a long name on an active command that has no options} x description = marker word + word-length pattern (8 quick / 16 thorough patterns over lengths 1,5,9,10,11,25,40) in {ASCII, mixed 1/2/3-byte (so that the characters on both sides of a forced break differ in size), 3-byte, 4-byte (non-BMP)} script (quick: the last two without a described positional) x embedded line break {none, after marker, after first word} or two consecutive blanks {after marker, after first word; ASCII descriptions} " +
 			"x every terminal width 1..100 (quick) / 1..300 (thorough), and 0 (a terminal that reports no columns: laid out as for 80), visited from the widest down within one process, set with TIOCSWINSZ on a real pty whose slave is fd 0 (the library's own ioctl reads it); oracle: no panic; all descriptions (found through their marker words) start in one character column; " +
 			"every continuation line is exactly that many blanks + text; all lines valid UTF-8; joining hyphen breaks gives back the original word sequence; no description line longer than the width while width - column >= 10; distinct = distinct (column, width asserted?, script, line count)",
 		Assumptions:  []string{"columns are counted in characters (East-Asian display width is not modelled)", "descriptions contain no hyphens and no empty lines"},
